@@ -52,23 +52,20 @@ Proof.
     rewrite !String.eqb_refl. reflexivity.
 Qed.
 
-(* a pair that is ok survives send -> receive through the set, for ALL value lists *)
+(* a pair that is ok survives send -> receive through the set, for ALL value lists — empty
+   strings and eduPersonTargetedID values included, whatever the map calls the OID *)
 Theorem pair_ok_roundtrip acs m k :
   pair_ok acs m k ->
   exists c, canon m k = Some c /\
     forall vs allow xml,
-      (wire_name m k = Some EPTID_OID -> c = EPTID_LOCAL /\ forall v, In v vs -> v <> "") ->
       roundtrip acs [(k, vs)] (nf m) allow xml = Some [(c, map (fun v => LStr (strip v)) vs)].
 Proof.
   intros (s & r & n & c & S & R & W & Ws & L & Lr). exists c. split.
   - unfold canon. rewrite W. exact L.
-  - intros vs allow xml He. destruct (sender_some _ _ _ S) as [_ Hsf]. rewrite <- Hsf in S, R |- *.
+  - intros vs allow xml. destruct (sender_some _ _ _ S) as [_ Hsf]. rewrite <- Hsf in S, R |- *.
     rewrite (send_receive_set acs s r [(k, vs)] allow xml S R).
     + unfold canonical, canon2. cbn [flat_map fst snd app]. rewrite Ws, Lr. reflexivity.
-    + intros e [<-|[]]. cbn [fst]. split.
-      * unfold canon2. rewrite Ws, Lr. discriminate.
-      * intros Hw. cbn [fst snd] in *. rewrite Ws in Hw. injection Hw as ->.
-        destruct (He W) as [-> Hv]. auto.
+    + intros e [<-|[]]. cbn [fst]. unfold canon2. rewrite Ws, Lr. discriminate.
 Qed.
 
 Definition set_consistent (acs : list conv) : Prop :=
@@ -137,6 +134,18 @@ Proof.
   intros m k Hm Hk Hc. apply pair_ok_b_iff. rewrite (bundled_pairs_ok_except_holds m k Hm Hk), Hc. reflexivity.
 Qed.
 
+(* through the five bundled converters, every (map, attribute) pair outside class 1 comes back
+   under its canonical name with exactly its values, trimmed — ALL value lists, eduPersonTargetedID
+   and empty strings included, either transport, either setting of allow_unknown_attributes *)
+Theorem bundled_pair_roundtrip_holds :
+  forall m k, In m bundled -> In k (map fst (to_ m)) -> clash_round bundled (nf m) k = false ->
+    exists c, canon m k = Some c /\
+      forall vs allow xml,
+        roundtrip bundled [(k, vs)] (nf m) allow xml = Some [(c, map (fun v => LStr (strip v)) vs)].
+Proof.
+  intros m k Hm Hk Hc. apply pair_ok_roundtrip. exact (bundled_set_consistent_guarded_holds m k Hm Hk Hc).
+Qed.
+
 (* at full strength it is FALSE on the current tree *)
 Theorem bundled_set_consistent_refuted_holds : ~ set_consistent bundled.
 Proof.
@@ -192,12 +201,86 @@ Proof.
   intros H. apply spec_recv_b_iff in H. vm_compute in H. discriminate.
 Qed.
 
-(* finding class 2: an empty eduPersonTargetedID value comes back as {"NameID": {...}} *)
-Theorem eptid_refuted_holds :
-  exists a, ~ spec_round bundled NAME_FORMAT_URI a (roundtrip bundled a NAME_FORMAT_URI false true).
+(* finding class 2 (C17-F2), repaired by 16472e5d: BEFORE the repair an empty eduPersonTargetedID
+   value came back as {"NameID": {...}} ... *)
+Definition EPTID_EMPTY := [("eduPersonTargetedID", ["a"; ""])].
+
+Theorem eptid_v0_refuted_holds :
+  exists a, ~ spec_round bundled NAME_FORMAT_URI a (roundtrip_v0 bundled a NAME_FORMAT_URI false true).
 Proof.
-  exists [("eduPersonTargetedID", [""])]. intros H. apply spec_round_b_iff in H. vm_compute in H. discriminate.
+  exists EPTID_EMPTY. intros H. apply spec_round_b_iff in H. vm_compute in H. discriminate.
 Qed.
+
+(* ... and the same input is handled correctly NOW *)
+Theorem eptid_now_holds :
+  roundtrip_v0 bundled EPTID_EMPTY NAME_FORMAT_URI false true
+    = Some [("eduPersonTargetedID", [LStr "a"; LNameID [("format", NAMEID_FORMAT_PERSISTENT)]])] /\
+  roundtrip bundled EPTID_EMPTY NAME_FORMAT_URI false true = Some [("eduPersonTargetedID", [LStr "a"; LStr ""])] /\
+  spec_round bundled NAME_FORMAT_URI EPTID_EMPTY (roundtrip bundled EPTID_EMPTY NAME_FORMAT_URI false true).
+Proof.
+  split; [vm_compute; reflexivity|]. split; [vm_compute; reflexivity|].
+  apply spec_round_b_iff. vm_compute. reflexivity.
+Qed.
+
+(* the other half of class 2: a "to"-only map (adjust() lower-cases its local names) *)
+Definition TO_ONLY_EPTID : srcmap :=
+  {| s_ident := NAME_FORMAT_URI; s_to := Some [("eduPersonTargetedID", EPTID_OID)]; s_fro := None |}.
+
+Theorem eptid_to_only_now_holds :
+  exists m, from_dict TO_ONLY_EPTID = Some m /\
+    roundtrip_v0 [m] [("eduPersonTargetedID", ["abc"])] NAME_FORMAT_URI false true
+      = Some [("edupersontargetedid", [LNameID [("format", NAMEID_FORMAT_PERSISTENT); ("value", "abc")]])] /\
+    roundtrip [m] [("eduPersonTargetedID", ["abc"; ""])] NAME_FORMAT_URI false true
+      = Some [("edupersontargetedid", [LStr "abc"; LStr ""])].
+Proof. eexists. split; [reflexivity|]. split; vm_compute; reflexivity. Qed.
+
+(* finding class 3 (C17-F3), repaired by 09ff19a1: to_() wraps by WIRE name, ava_from unwrapped by
+   LOCAL name only — BEFORE the repair a map that gives the OID another local name got the
+   dictionaries back ... *)
+Definition EPTID_RENAMED : conv :=
+  {| nf := NAME_FORMAT_URI; to_ := [("eptid", EPTID_OID)]; fro := [(EPTID_OID, "eptid")] |}.
+Definition EPTID_RENAMED_AVA := [("eptid", ["abc"; ""])].
+Definition EPTID_RENAMED_WIRE :=
+  [{| wname := Some EPTID_OID; wnf := Some NAME_FORMAT_URI; wfriendly := None;
+      wvals := [WNameID [("format", NAMEID_FORMAT_PERSISTENT)] "abc"] |}].
+
+Theorem eptid_renamed_v1_refuted_holds :
+  exists acs a, ~ spec_round acs NAME_FORMAT_URI a (roundtrip_v1 acs a NAME_FORMAT_URI false true).
+Proof.
+  exists [EPTID_RENAMED], EPTID_RENAMED_AVA. intros H. apply spec_round_b_iff in H. vm_compute in H. discriminate.
+Qed.
+
+Theorem eptid_renamed_recv_v1_refuted_holds :
+  exists acs ws, ~ spec_recv acs false ws (to_local_v1 acs false ws).
+Proof.
+  exists [EPTID_RENAMED], EPTID_RENAMED_WIRE.
+  intros H. apply spec_recv_b_iff in H. vm_compute in H. discriminate.
+Qed.
+
+(* ... and the same inputs are handled correctly NOW *)
+Theorem eptid_renamed_now_holds :
+  roundtrip_v1 [EPTID_RENAMED] EPTID_RENAMED_AVA NAME_FORMAT_URI false true
+    = Some [("eptid", [LNameID [("format", NAMEID_FORMAT_PERSISTENT); ("value", "abc")];
+                       LNameID [("format", NAMEID_FORMAT_PERSISTENT)]])] /\
+  roundtrip [EPTID_RENAMED] EPTID_RENAMED_AVA NAME_FORMAT_URI false true = Some [("eptid", [LStr "abc"; LStr ""])] /\
+  spec_round [EPTID_RENAMED] NAME_FORMAT_URI EPTID_RENAMED_AVA
+             (roundtrip [EPTID_RENAMED] EPTID_RENAMED_AVA NAME_FORMAT_URI false true) /\
+  to_local_v1 [EPTID_RENAMED] false EPTID_RENAMED_WIRE
+    = [("eptid", [LNameID [("format", NAMEID_FORMAT_PERSISTENT); ("value", "abc")]])] /\
+  to_local [EPTID_RENAMED] false EPTID_RENAMED_WIRE = [("eptid", [LStr "abc"])] /\
+  spec_recv [EPTID_RENAMED] false EPTID_RENAMED_WIRE (to_local [EPTID_RENAMED] false EPTID_RENAMED_WIRE).
+Proof.
+  split; [vm_compute; reflexivity|]. split; [vm_compute; reflexivity|].
+  split; [apply spec_round_b_iff; vm_compute; reflexivity|].
+  split; [vm_compute; reflexivity|]. split; [vm_compute; reflexivity|].
+  apply spec_recv_b_iff. vm_compute. reflexivity.
+Qed.
+
+(* the repairs are cumulative: what v0 got wrong, v1 got right (the v1 model differs from the current
+   one only on maps that rename the OID) *)
+Theorem eptid_v1_on_v0_witness_holds :
+  roundtrip_v1 bundled EPTID_EMPTY NAME_FORMAT_URI false true = roundtrip bundled EPTID_EMPTY NAME_FORMAT_URI false true.
+Proof. vm_compute. reflexivity. Qed.
 
 (* ---------------------------------------------------------------- non-vacuity *)
 Example guard_satisfiable :
@@ -208,6 +291,12 @@ Proof. split; vm_compute; reflexivity. Qed.
 
 Example classes_inhabited :
   round_cls bundled NAME_FORMAT_UNSPECIFIED ADFS_MAIL = 1 /\
-  round_cls bundled NAME_FORMAT_URI [("eduPersonTargetedID", [""])] = 2 /\
-  round_cls bundled NAME_FORMAT_URI [("eduPersonTargetedID", ["x"])] = 0.
+  (* the repaired classes 2 and 3 guard nothing any more; they are only recognised *)
+  round_cls [EPTID_RENAMED] NAME_FORMAT_URI EPTID_RENAMED_AVA = 0 /\
+  round_cls_reg [EPTID_RENAMED] NAME_FORMAT_URI EPTID_RENAMED_AVA = 3 /\
+  recv_cls [EPTID_RENAMED] EPTID_RENAMED_WIRE = 0 /\
+  recv_cls_reg [EPTID_RENAMED] EPTID_RENAMED_WIRE = 3 /\
+  round_cls bundled NAME_FORMAT_URI EPTID_EMPTY = 0 /\
+  round_cls_reg bundled NAME_FORMAT_URI EPTID_EMPTY = 2 /\
+  round_cls_reg bundled NAME_FORMAT_URI [("eduPersonTargetedID", ["x"])] = 0.
 Proof. repeat split; vm_compute; reflexivity. Qed.
